@@ -7,6 +7,7 @@
 package reservation
 
 import (
+	"context"
 	"encoding/json"
 	"fmt"
 	"io"
@@ -30,6 +31,7 @@ import (
 	schedulingv1alpha1 "github.com/koordinator-sh/koordinator/apis/scheduling/v1alpha1"
 	"github.com/koordinator-sh/koordinator/pkg/scheduler/apis/config"
 	"github.com/koordinator-sh/koordinator/pkg/scheduler/frameworkext"
+	reservationutil "github.com/koordinator-sh/koordinator/pkg/util/reservation"
 	"github.com/koordinator-sh/koordinator/pkg/verifkit/vk"
 )
 
@@ -168,6 +170,34 @@ func c05ModelNames(allocatable []corev1.ResourceName, policy schedulingv1alpha1.
 	return names
 }
 
+// c05ObjNames restates, from the object alone, which dimensions the ledger of this reservation counts NOW: what the
+// reservation reserves (status.allocatable once it is Available on a node, the template's requests before), narrowed by
+// the restricted-resources annotation for the Restricted policy.
+func c05ObjNames(o *schedulingv1alpha1.Reservation) map[corev1.ResourceName]bool {
+	var dims []corev1.ResourceName
+	if o.Status.NodeName != "" && o.Status.Phase == schedulingv1alpha1.ReservationAvailable {
+		for d := range o.Status.Allocatable {
+			dims = append(dims, d)
+		}
+	} else if o.Spec.Template != nil {
+		for _, ct := range o.Spec.Template.Spec.Containers {
+			for d := range ct.Resources.Requests {
+				dims = append(dims, d)
+			}
+		}
+	}
+	var opts []corev1.ResourceName
+	if a := o.Annotations[apiext.AnnotationReservationRestrictedOptions]; a != "" {
+		var v struct {
+			Resources []corev1.ResourceName `json:"resources"`
+		}
+		if json.Unmarshal([]byte(a), &v) == nil {
+			opts = v.Resources
+		}
+	}
+	return c05ModelNames(dims, o.Spec.AllocatePolicy, opts)
+}
+
 func c05SetReservedAnnotation(obj metav1.Object, reserved c05Req) {
 	if reserved == nil {
 		return
@@ -199,8 +229,10 @@ type c05Res struct {
 	idx       int
 	uid       types.UID
 	obj       *schedulingv1alpha1.Reservation // current API object
-	dims      []corev1.ResourceName           // reserved dimensions (fixed for the run)
-	names     map[corev1.ResourceName]bool    // model: dimensions the ledger counts
+	dims      []corev1.ResourceName           // dimensions of the template
+	names     map[corev1.ResourceName]bool    // model: dimensions the ledger counts now (follows the object given to the cache)
+	widened   map[corev1.ResourceName]bool    // dimension started to be counted while an assigned pod already requested it
+	cycle     fwktype.CycleState              // scheduling cycle of the reservation's own reserve pod (between Reserve and bind/Unreserve)
 	allocOnce bool
 	node      string // node the reservation is placed on ("" = none yet)
 	assumed   bool   // in the cache only through assumeReservation (API object still pending)
@@ -261,9 +293,22 @@ func c05GenLabels(t *rapid.T) map[string]string {
 func TestVerifC05CacheHistory(t *testing.T) {
 	c05Quiet()
 	rec := vk.New(t, "C05", "cacheHistory")
+	// One real Plugin for the whole test function (expensive to build); every case gives it a fresh cache and nominator and
+	// an emptied reservation lister. Informers are never started: the lister is fed through the informer's indexer.
+	suit := newPluginTestSuitWith(t, nil, nil)
+	plg, err := suit.pluginFactory()
+	if err != nil {
+		t.Fatalf("plugin factory: %v", err)
+	}
+	pl := plg.(*Plugin)
+	rIndexer := suit.extenderFactory.KoordinatorSharedInformerFactory().Scheduling().V1alpha1().Reservations().Informer().GetIndexer()
+	ctx := context.TODO()
 	rapid.Check(t, func(t *rapid.T) {
 		c := rec.Begin()
 		defer c.End()
+		if err := rIndexer.Replace(nil, "0"); err != nil {
+			t.Fatalf("reset lister: %v", err)
+		}
 
 		nNodes := rapid.IntRange(1, 3).Draw(t, "nodes")
 		nodes := make([]string, nNodes)
@@ -276,6 +321,7 @@ func TestVerifC05CacheHistory(t *testing.T) {
 			cache.setReservationSelectorIndexConfig(&config.ReservationSelectorIndexArgs{Enabled: true, KeyPrefixes: []string{"tenant"}, Keys: []string{"app"}})
 		}
 		nm := newNominator(nil, nil)
+		pl.reservationCache, pl.nominator = cache, nm
 		rh := &reservationEventHandler{cache: cache, rrNominator: nm}
 		ph := &podEventHandler{cache: cache, nominator: nm}
 
@@ -287,6 +333,13 @@ func TestVerifC05CacheHistory(t *testing.T) {
 		logf := func(f string, a ...any) { hist = append(hist, fmt.Sprintf(f, a...)) }
 		// flags for classes / the non-trivial rule
 		var ntUnassignAfterUnavail, ntDeleteWithPods, sawMasked, sawGhost, sawMove, sawResize, sawDelayed, sawRematch, sawMulti, sawAssumeErr, sawDouble bool
+		var sawNarrowHeld, sawWidenHeld, sawDimsChange, sawReserveCycle, sawUnreserve, sawUnreserveGone bool
+		// the reservation lister follows the API objects
+		listerSet := func(o *schedulingv1alpha1.Reservation) {
+			if err := rIndexer.Update(o); err != nil {
+				t.Fatalf("lister update: %v", err)
+			}
+		}
 
 		// ---- model transitions (a plain restatement of "who is assigned where", independent of koordinator's ledger code)
 		mAdd := func(uid types.UID, p *c05Pod, reqs c05Req) {
@@ -321,6 +374,9 @@ func TestVerifC05CacheHistory(t *testing.T) {
 				return
 			}
 			delete(r.pods, p.uid)
+			if len(r.pods) == 0 {
+				r.widened = map[corev1.ResourceName]bool{}
+			}
 			if r.unavailWithP {
 				ntUnassignAfterUnavail = true
 			}
@@ -334,16 +390,44 @@ func TestVerifC05CacheHistory(t *testing.T) {
 			}
 			r.inCache, r.cacheAvail, r.cacheTermin, r.unavailWithP = false, false, false, false
 			r.pods = map[types.UID]c05Req{}
+			r.widened = map[corev1.ResourceName]bool{}
 		}
 		// the cache was handed object o for reservation r (create or refresh)
 		mGive := func(r *c05Res, o *schedulingv1alpha1.Reservation, create bool) {
+			fresh := !r.inCache
 			if !r.inCache {
 				if !create {
 					return
 				}
 				r.inCache = true
 				r.pods = map[types.UID]c05Req{}
+				r.widened = map[corev1.ResourceName]bool{}
+				r.names = map[corev1.ResourceName]bool{}
 			}
+			// the dimensions counted from now on are those of the object just handed over
+			newNames := c05ObjNames(o)
+			for _, d := range c05Universe {
+				held := false
+				for _, req := range r.pods {
+					if req[d] > 0 {
+						held = true
+					}
+				}
+				if newNames[d] != r.names[d] && !fresh {
+					sawDimsChange = true
+				}
+				if newNames[d] && !r.names[d] && held {
+					r.widened[d] = true
+					sawWidenHeld = true
+				}
+				if !newNames[d] {
+					if r.names[d] && held {
+						sawNarrowHeld = true
+					}
+					delete(r.widened, d)
+				}
+			}
+			r.names = newNames
 			r.cacheAvail = o.Status.NodeName != "" && o.Status.Phase == schedulingv1alpha1.ReservationAvailable
 			r.everAvail = r.everAvail || r.cacheAvail
 			r.cacheTermin = o.DeletionTimestamp != nil
@@ -393,7 +477,11 @@ func TestVerifC05CacheHistory(t *testing.T) {
 				for _, d := range c05SortedNames(dimsSeen) {
 					q := rInfo.Allocated[d]
 					if q.MilliValue() != want[d] {
-						return c.Violation(t, "ledger:allocated-ne-sum-of-assigned", "%s: reservation %s (reserved dims %v) reports allocated %s=%d milli, assigned pods %v sum to %d milli; history=%v",
+						sig := "ledger:allocated-ne-sum-of-assigned"
+						if r.widened[d] {
+							sig = "ledger:allocated-ne-sum-of-assigned:dimension-counted-after-pod-assigned"
+						}
+						return c.Violation(t, sig, "%s: reservation %s (currently counted dims %v) reports allocated %s=%d milli, assigned pods %v sum to %d milli in that dimension; history=%v",
 							where, r.uid, c05SortedNames(r.names), d, q.MilliValue(), c05PodsStr(r.pods), want[d], hist)
 					}
 				}
@@ -405,7 +493,11 @@ func TestVerifC05CacheHistory(t *testing.T) {
 				}
 				for _, d := range c05Universe {
 					if got[d] != want[d] {
-						return c.Violation(t, "ledger:precalculated-allocated-stale", "%s: reservation %s AllocatedResource %s=%d milli, assigned pods %v sum to %d milli; history=%v",
+						sig := "ledger:precalculated-allocated-stale"
+						if r.widened[d] {
+							sig = "ledger:allocated-ne-sum-of-assigned:dimension-counted-after-pod-assigned"
+						}
+						return c.Violation(t, sig, "%s: reservation %s AllocatedResource %s=%d milli, assigned pods %v sum to %d milli; history=%v",
 							where, r.uid, d, got[d], c05PodsStr(r.pods), want[d], hist)
 					}
 				}
@@ -571,7 +663,7 @@ func TestVerifC05CacheHistory(t *testing.T) {
 		// ---- object constructors
 		newRes := func(t *rapid.T) *c05Res {
 			idx := len(ress)
-			r := &c05Res{idx: idx, uid: types.UID(fmt.Sprintf("r%d", idx)), pods: map[types.UID]c05Req{}}
+			r := &c05Res{idx: idx, uid: types.UID(fmt.Sprintf("r%d", idx)), pods: map[types.UID]c05Req{}, widened: map[corev1.ResourceName]bool{}, names: map[corev1.ResourceName]bool{}}
 			for len(r.dims) == 0 {
 				for _, d := range c05Universe[:3] { // ext.io/b is never reserved: requests for it are always masked out
 					if rapid.Bool().Draw(t, "dim:"+string(d)) {
@@ -593,7 +685,6 @@ func TestVerifC05CacheHistory(t *testing.T) {
 					}
 				}
 			}
-			r.names = c05ModelNames(r.dims, policy, opts)
 			obj := &schedulingv1alpha1.Reservation{}
 			obj.Name, obj.UID = fmt.Sprintf("res-%d", idx), r.uid
 			obj.Labels = c05GenLabels(t)
@@ -626,6 +717,25 @@ func TestVerifC05CacheHistory(t *testing.T) {
 			byUID[r.uid] = r
 			return r
 		}
+		// what the reservation holds once scheduled: mostly the template's dimensions, sometimes resized to another set
+		genAlloc := func(t *rapid.T, r *c05Res) c05Req {
+			dims := r.dims
+			if rapid.IntRange(0, 3).Draw(t, "allocDimsDiffer") == 0 {
+				dims = nil
+				for len(dims) == 0 {
+					for _, d := range c05Universe[:3] {
+						if rapid.Bool().Draw(t, "adim:"+string(d)) {
+							dims = append(dims, d)
+						}
+					}
+				}
+			}
+			alloc := c05Req{}
+			for _, d := range dims {
+				alloc[d] = 1 + c05GenAmount(t, d, true, "alloc:"+string(d))
+			}
+			return alloc
+		}
 		bind := func(t *rapid.T, o *schedulingv1alpha1.Reservation, r *c05Res, node string) {
 			o.Status.NodeName = node
 			if rapid.IntRange(0, 5).Draw(t, "waiting") == 0 {
@@ -633,11 +743,7 @@ func TestVerifC05CacheHistory(t *testing.T) {
 			} else {
 				o.Status.Phase = schedulingv1alpha1.ReservationAvailable
 			}
-			alloc := c05Req{}
-			for _, d := range r.dims {
-				alloc[d] = 1 + c05GenAmount(t, d, true, "alloc:"+string(d))
-			}
-			o.Status.Allocatable = c05RL(alloc)
+			o.Status.Allocatable = c05RL(genAlloc(t, r))
 		}
 		newPod := func(t *rapid.T) *c05Pod {
 			idx := len(pods)
@@ -743,6 +849,7 @@ func TestVerifC05CacheHistory(t *testing.T) {
 					r.node = rapid.SampledFrom(nodes).Draw(t, "node")
 					bind(t, r.obj, r, r.node)
 				}
+				listerSet(r.obj)
 				rh.OnAdd(r.obj, false)
 				if r.bound() {
 					mGive(r, r.obj, true)
@@ -752,21 +859,26 @@ func TestVerifC05CacheHistory(t *testing.T) {
 			{"resAssume", 2, func() bool { return hasRes(func(r *c05Res) bool { return r.pending() && !r.assumed }) }, func(t *rapid.T) {
 				r := pickRes(t, func(r *c05Res) bool { return r.pending() && !r.assumed })
 				r.node = rapid.SampledFrom(nodes).Draw(t, "node")
+				// the reservation's own scheduling cycle reaches Reserve with its reserve pod
+				r.cycle = framework.NewCycleState()
+				if st := pl.Reserve(ctx, r.cycle, reservationutil.NewReservePod(r.obj), r.node); !st.IsSuccess() {
+					t.Fatalf("Reserve of the reserve pod of %s failed: %v", r.uid, st.Message())
+				}
 				cp := r.obj.DeepCopy()
 				cp.Status.NodeName = r.node
-				cache.assumeReservation(cp)
 				r.assumed = true
 				mGive(r, cp, true)
-				logf("reservation assume %s on %s", r.uid, r.node)
+				sawReserveCycle = true
+				logf("reservation %s: Reserve(reserve pod) on %s", r.uid, r.node)
 			}},
 			{"resForget", 1, func() bool { return hasRes(func(r *c05Res) bool { return r.pending() && r.assumed }) }, func(t *rapid.T) {
 				r := pickRes(t, func(r *c05Res) bool { return r.pending() && r.assumed })
-				cp := r.obj.DeepCopy()
-				cp.Status.NodeName = r.node
-				cache.forgetReservation(cp)
+				// binding failed (or a later Reserve/Permit plugin refused): Unreserve while the lister still holds the pending object
+				pl.Unreserve(ctx, r.cycle, reservationutil.NewReservePod(r.obj), r.node)
 				mDeleteRes(r)
-				r.assumed, r.node = false, ""
-				logf("reservation forget %s", r.uid)
+				logf("reservation %s: Unreserve(reserve pod) from %s", r.uid, r.node)
+				r.assumed, r.node, r.cycle = false, "", nil
+				sawUnreserve = true
 			}},
 			{"resBind", 4, func() bool { return hasRes(func(r *c05Res) bool { return r.pending() }) }, func(t *rapid.T) {
 				r := pickRes(t, func(r *c05Res) bool { return r.pending() })
@@ -776,26 +888,56 @@ func TestVerifC05CacheHistory(t *testing.T) {
 				old := r.obj
 				nw := old.DeepCopy()
 				bind(t, nw, r, r.node)
-				r.obj, r.assumed = nw, false
+				r.obj, r.assumed, r.cycle = nw, false, nil
+				listerSet(nw)
 				rh.OnUpdate(old, nw)
 				mGive(r, nw, true)
-				logf("reservation update %s -> %s on %s alloc=%v", r.uid, nw.Status.Phase, r.node, c05RLStr(nw.Status.Allocatable))
+				logf("reservation update %s -> %s on %s alloc=%v counted=%v", r.uid, nw.Status.Phase, r.node, c05RLStr(nw.Status.Allocatable), c05SortedNames(r.names))
 			}},
 			{"resUpdate", 5, func() bool { return hasRes(canUpdate) }, func(t *rapid.T) {
 				r := pickRes(t, canUpdate)
 				old := r.obj
 				nw := old.DeepCopy()
 				what := ""
-				switch rapid.IntRange(0, 6).Draw(t, "updateKind") {
+				switch rapid.IntRange(0, 9).Draw(t, "updateKind") {
+				case 7, 8: // the restricted-resources option is narrowed, widened or removed
+					if rapid.IntRange(0, 3).Draw(t, "dropRestrictedOptions") == 0 {
+						delete(nw.Annotations, apiext.AnnotationReservationRestrictedOptions)
+						what = "restricted-options removed"
+					} else {
+						opts := []corev1.ResourceName{}
+						for _, d := range c05Universe {
+							if rapid.Bool().Draw(t, "opt:"+string(d)) {
+								opts = append(opts, d)
+							}
+						}
+						c05SetRestrictedOptions(nw, opts)
+						what = fmt.Sprintf("restricted-options=%v", opts)
+					}
+				case 9: // resized to another set of dimensions
+					dims := []corev1.ResourceName{}
+					for len(dims) == 0 {
+						for _, d := range c05Universe[:3] {
+							if rapid.Bool().Draw(t, "adim:"+string(d)) {
+								dims = append(dims, d)
+							}
+						}
+					}
+					alloc := c05Req{}
+					for _, d := range dims {
+						alloc[d] = 1 + c05GenAmount(t, d, true, "alloc:"+string(d))
+					}
+					nw.Status.Allocatable = c05RL(alloc)
+					what = "allocatable (dimensions changed)=" + c05RLStr(nw.Status.Allocatable)
 				case 0:
 					what = "resync"
 					nw = old
 				case 1:
 					nw.Labels = c05GenLabels(t)
 					what = fmt.Sprintf("labels=%v", nw.Labels)
-				case 2:
+				case 2: // resized, same dimensions
 					alloc := c05Req{}
-					for _, d := range r.dims {
+					for _, d := range c05SortedNames(old.Status.Allocatable) {
 						alloc[d] = 1 + c05GenAmount(t, d, true, "alloc:"+string(d))
 					}
 					nw.Status.Allocatable = c05RL(alloc)
@@ -819,9 +961,10 @@ func TestVerifC05CacheHistory(t *testing.T) {
 					what = "status.currentOwners"
 				}
 				r.obj = nw
+				listerSet(nw)
 				rh.OnUpdate(old, nw)
 				mGive(r, nw, true)
-				logf("reservation update %s %s", r.uid, what)
+				logf("reservation update %s %s (policy %q, counted now %v)", r.uid, what, nw.Spec.AllocatePolicy, c05SortedNames(r.names))
 			}},
 			{"resTerminate", 3, func() bool { return hasRes(canUpdate) }, func(t *rapid.T) {
 				r := pickRes(t, canUpdate)
@@ -829,6 +972,7 @@ func TestVerifC05CacheHistory(t *testing.T) {
 				nw := old.DeepCopy()
 				nw.Status.Phase = rapid.SampledFrom([]schedulingv1alpha1.ReservationPhase{schedulingv1alpha1.ReservationSucceeded, schedulingv1alpha1.ReservationFailed}).Draw(t, "terminalPhase")
 				r.obj = nw
+				listerSet(nw)
 				globalDeletes := old.Status.Phase == schedulingv1alpha1.ReservationAvailable // eventhandlers/reservation_handler.go case 3
 				order := rapid.IntRange(0, 2).Draw(t, "handlerOrder")
 				if globalDeletes && order == 0 {
@@ -850,6 +994,9 @@ func TestVerifC05CacheHistory(t *testing.T) {
 			{"resDeleteAPI", 2, func() bool { return hasRes(func(r *c05Res) bool { return !r.gone }) }, func(t *rapid.T) {
 				r := pickRes(t, func(r *c05Res) bool { return !r.gone })
 				pluginFirst := rapid.Bool().Draw(t, "pluginFirst")
+				if err := rIndexer.Delete(r.obj); err != nil {
+					t.Fatalf("lister delete: %v", err)
+				}
 				if !pluginFirst {
 					flushGlobal(r)
 					if r.obj.Status.NodeName != "" {
@@ -865,11 +1012,11 @@ func TestVerifC05CacheHistory(t *testing.T) {
 						cp.Status.Phase = schedulingv1alpha1.ReservationFailed
 					}
 					if r.assumed {
-						// the API object of an assumed reservation has no node; the binding cycle fails next and forgets it
-						cp2 := r.obj.DeepCopy()
-						cp2.Status.NodeName = r.node
-						cache.forgetReservation(cp2)
+						// the API object of an assumed reservation has no node; its binding cycle fails next and Unreserve
+						// runs when the lister no longer has the object
+						pl.Unreserve(ctx, r.cycle, reservationutil.NewReservePod(r.obj), r.node)
 						mDeleteRes(r)
+						sawUnreserveGone = true
 					} else {
 						mGive(r, cp, false)
 					}
@@ -1080,6 +1227,12 @@ func TestVerifC05CacheHistory(t *testing.T) {
 		c.ClassIf(sawMulti, "reservation-with-2+-pods")
 		c.ClassIf(sawAssumeErr, "assume-refused")
 		c.ClassIf(sawDouble, "second-pod-on-allocate-once(forced)")
+		c.ClassIf(sawDimsChange, "counted-dims-changed-by-update")
+		c.ClassIf(sawNarrowHeld, "counted-dims-narrowed-while-held")
+		c.ClassIf(sawWidenHeld, "counted-dims-widened-while-held")
+		c.ClassIf(sawReserveCycle, "reservation-reserve-cycle")
+		c.ClassIf(sawUnreserve, "reservation-unreserve")
+		c.ClassIf(sawUnreserveGone, "reservation-unreserve-after-api-delete")
 		c.ClassIf(len(hist) >= 20, "history>=20")
 		if ntUnassignAfterUnavail || ntDeleteWithPods {
 			c.NonTrivial(hist)
